@@ -83,6 +83,7 @@ type Exec struct {
 	partialHavocs []partialHavoc
 	propRe *regexp.Regexp
 	subErrSites []string
+	mapStoreOrd map[*ssa.MapUpdate]int
 	tiDone map[string]bool
 	tiRelevant map[int]bool
 	privAllocs map[*ssa.Alloc]bool
@@ -1100,6 +1101,13 @@ func (ex *Exec) instr(in ssa.Instruction) {
 			}
 		}
 	case *ssa.MapUpdate:
+		{
+			// contracts can attach assertions to a map store as to a call:
+			//   assert label @before call mapstore[k]: expr     (arg0 = map, arg1 = key, arg2 = value)
+			args := []TV{{T: ex.val(i.Map).T, Ty: i.Map.Type()}, {T: ex.val(i.Key).T, Ty: i.Key.Type()}, {T: ex.val(i.Value).T, Ty: i.Value.Type()}}
+			k := ex.mapStoreOrd[i]
+			ex.callSiteClauses("mapstore", k, "before", args, nil, i.Pos(), i)
+		}
 		m := ex.val(i.Map)
 		mt := i.Map.Type().Underlying().(*types.Map)
 		dom, val, ln := vc.mapArrs(mt)
